@@ -22,6 +22,23 @@
 #define BLOCK_SIZE_MAX (UINT64_MAX / LZMA_THREADS_MAX)
 
 
+#ifdef TUKAANI_PROJECT_XZ_VERIF
+// Verification hook H3 (/verif/hooks/h3-mtenc.patch): protocol events of the
+// threaded encoder, emitted inside the critical section they describe.
+// NULL (the default) disables it. ev = event code (1xx), t = index of the
+// worker thread in coder->threads[] (or 0), a/b/c = event-specific values.
+void (*lzma_verif_mtenc_event)(unsigned ev, uint64_t t,
+		uint64_t a, uint64_t b, uint64_t c) = NULL;
+#	define VERIF_MTENC_EV(ev, t, a, b, c) \
+		do { if (lzma_verif_mtenc_event != NULL) \
+			lzma_verif_mtenc_event((ev), (uint64_t)(t), \
+				(uint64_t)(a), (uint64_t)(b), \
+				(uint64_t)(c)); \
+		} while (0)
+#	define VERIF_MTENC_TID(thr) ((thr) - (thr)->coder->threads)
+#endif
+
+
 typedef enum {
 	/// Waiting for work.
 	THR_IDLE,
@@ -208,6 +225,9 @@ worker_error(worker_thread *thr, lzma_ret ret)
 		if (thr->coder->thread_error == LZMA_OK)
 			thr->coder->thread_error = ret;
 
+#ifdef TUKAANI_PROJECT_XZ_VERIF
+		VERIF_MTENC_EV(158, VERIF_MTENC_TID(thr), ret, 0, 0);
+#endif
 		mythread_cond_signal(&thr->coder->cond);
 	}
 
@@ -253,6 +273,9 @@ worker_encode(worker_thread *thr, size_t *out_pos, worker_state state)
 
 	*out_pos = thr->block_options.header_size;
 	const size_t out_size = thr->outbuf->allocated;
+#ifdef TUKAANI_PROJECT_XZ_VERIF
+	VERIF_MTENC_EV(159, VERIF_MTENC_TID(thr), *out_pos, out_size, 0);
+#endif
 
 	do {
 		mythread_sync(thr->mutex) {
@@ -268,10 +291,22 @@ worker_encode(worker_thread *thr, size_t *out_pos, worker_state state)
 
 			while (in_size == thr->in_size
 					&& thr->state == THR_RUN)
+#ifdef TUKAANI_PROJECT_XZ_VERIF
+			{
+				VERIF_MTENC_EV(152, VERIF_MTENC_TID(thr),
+						in_pos, *out_pos, 0);
+#endif
 				mythread_cond_wait(&thr->cond, &thr->mutex);
+#ifdef TUKAANI_PROJECT_XZ_VERIF
+			}
+#endif
 
 			state = thr->state;
 			in_size = thr->in_size;
+#ifdef TUKAANI_PROJECT_XZ_VERIF
+			VERIF_MTENC_EV(153, VERIF_MTENC_TID(thr), state, in_size,
+					*out_pos);
+#endif
 		}
 
 		// Return if we were asked to stop or exit.
@@ -295,6 +330,9 @@ worker_encode(worker_thread *thr, size_t *out_pos, worker_state state)
 				thr->block_encoder.coder, thr->allocator,
 				thr->in, &in_pos, in_limit, thr->outbuf->buf,
 				out_pos, out_size, action);
+#ifdef TUKAANI_PROJECT_XZ_VERIF
+		VERIF_MTENC_EV(154, VERIF_MTENC_TID(thr), ret, in_pos, *out_pos);
+#endif
 	} while (ret == LZMA_OK && *out_pos < out_size);
 
 	switch (ret) {
@@ -320,10 +358,20 @@ worker_encode(worker_thread *thr, size_t *out_pos, worker_state state)
 		// First wait that we have gotten all the input.
 		mythread_sync(thr->mutex) {
 			while (thr->state == THR_RUN)
+#ifdef TUKAANI_PROJECT_XZ_VERIF
+			{
+				VERIF_MTENC_EV(156, VERIF_MTENC_TID(thr), 0, 0, 0);
+#endif
 				mythread_cond_wait(&thr->cond, &thr->mutex);
+#ifdef TUKAANI_PROJECT_XZ_VERIF
+			}
+#endif
 
 			state = thr->state;
 			in_size = thr->in_size;
+#ifdef TUKAANI_PROJECT_XZ_VERIF
+			VERIF_MTENC_EV(157, VERIF_MTENC_TID(thr), state, in_size, 0);
+#endif
 		}
 
 		if (state >= THR_STOP)
@@ -377,6 +425,10 @@ worker_start(void *thr_ptr)
 				}
 
 				state = thr->state;
+#ifdef TUKAANI_PROJECT_XZ_VERIF
+				VERIF_MTENC_EV(state != THR_IDLE ? 151 : 150,
+						VERIF_MTENC_TID(thr), state, 0, 0);
+#endif
 				if (state != THR_IDLE)
 					break;
 
@@ -399,6 +451,10 @@ worker_start(void *thr_ptr)
 		// told us to exit. Signal is needed for the case
 		// where the main thread is waiting for the threads to stop.
 		mythread_sync(thr->mutex) {
+#ifdef TUKAANI_PROJECT_XZ_VERIF
+			VERIF_MTENC_EV(155, VERIF_MTENC_TID(thr), thr->state, state,
+					0);
+#endif
 			if (thr->state != THR_EXIT) {
 				thr->state = THR_IDLE;
 				mythread_cond_signal(&thr->cond);
@@ -406,6 +462,12 @@ worker_start(void *thr_ptr)
 		}
 
 		mythread_sync(thr->coder->mutex) {
+#ifdef TUKAANI_PROJECT_XZ_VERIF
+			VERIF_MTENC_EV(160, VERIF_MTENC_TID(thr), out_pos,
+					state == THR_FINISH
+						? thr->outbuf->unpadded_size : 0,
+					state);
+#endif
 			// If no errors occurred, make the encoded data
 			// available to be copied out.
 			if (state == THR_FINISH) {
@@ -475,6 +537,9 @@ threads_end(lzma_stream_coder *coder, const lzma_allocator *allocator)
 {
 	for (uint32_t i = 0; i < coder->threads_initialized; ++i) {
 		mythread_sync(coder->threads[i].mutex) {
+#ifdef TUKAANI_PROJECT_XZ_VERIF
+			VERIF_MTENC_EV(122, i, coder->threads[i].state, 0, 0);
+#endif
 			coder->threads[i].state = THR_EXIT;
 			mythread_cond_signal(&coder->threads[i].cond);
 		}
@@ -541,6 +606,10 @@ get_thread(lzma_stream_coder *coder, const lzma_allocator *allocator)
 {
 	// If there are no free output subqueues, there is no
 	// point to try getting a thread.
+#ifdef TUKAANI_PROJECT_XZ_VERIF
+	if (!lzma_outq_has_buf(&coder->outq))
+		VERIF_MTENC_EV(113, 0, 1, 0, 0);
+#endif
 	if (!lzma_outq_has_buf(&coder->outq))
 		return LZMA_OK;
 
@@ -562,6 +631,12 @@ get_thread(lzma_stream_coder *coder, const lzma_allocator *allocator)
 			coder->thr = coder->threads_free;
 			coder->threads_free = coder->threads_free->next;
 		}
+#ifdef TUKAANI_PROJECT_XZ_VERIF
+		VERIF_MTENC_EV(112, coder->thr != NULL
+				? (uint64_t)(coder->thr - coder->threads) : 0,
+				coder->thr != NULL, coder->threads_initialized,
+				coder->threads_max);
+#endif
 	}
 
 	if (coder->thr == NULL) {
@@ -579,6 +654,9 @@ get_thread(lzma_stream_coder *coder, const lzma_allocator *allocator)
 		coder->thr->state = THR_RUN;
 		coder->thr->in_size = 0;
 		coder->thr->outbuf = lzma_outq_get_buf(&coder->outq, NULL);
+#ifdef TUKAANI_PROJECT_XZ_VERIF
+		VERIF_MTENC_EV(111, coder->thr - coder->threads, 0, 0, 0);
+#endif
 
 		// Free the old thread-specific filter options and replace
 		// them with the already-allocated new options from
@@ -626,6 +704,10 @@ stream_encode_in(lzma_stream_coder *coder, const lzma_allocator *allocator,
 		bool block_error = false;
 
 		mythread_sync(coder->thr->mutex) {
+#ifdef TUKAANI_PROJECT_XZ_VERIF
+			VERIF_MTENC_EV(114, coder->thr - coder->threads, thr_in_size,
+					finish, coder->thr->state == THR_IDLE);
+#endif
 			if (coder->thr->state == THR_IDLE) {
 				// Something has gone wrong with the Block
 				// encoder. It has set coder->thread_error
@@ -657,6 +739,9 @@ stream_encode_in(lzma_stream_coder *coder, const lzma_allocator *allocator,
 			coder->thr = NULL;
 	}
 
+#ifdef TUKAANI_PROJECT_XZ_VERIF
+	VERIF_MTENC_EV(115, 0, 0, 0, 0);
+#endif
 	return LZMA_OK;
 }
 
@@ -699,6 +784,9 @@ wait_for_work(lzma_stream_coder *coder, mythread_condtime *wait_abs,
 				&& !lzma_outq_is_readable(&coder->outq)
 				&& coder->thread_error == LZMA_OK
 				&& !timed_out) {
+#ifdef TUKAANI_PROJECT_XZ_VERIF
+			VERIF_MTENC_EV(117, 0, has_input, 0, 0);
+#endif
 			if (coder->timeout != 0)
 				timed_out = mythread_cond_timedwait(
 						&coder->cond, &coder->mutex,
@@ -707,6 +795,9 @@ wait_for_work(lzma_stream_coder *coder, mythread_condtime *wait_abs,
 				mythread_cond_wait(&coder->cond,
 						&coder->mutex);
 		}
+#ifdef TUKAANI_PROJECT_XZ_VERIF
+		VERIF_MTENC_EV(118, 0, timed_out, 0, 0);
+#endif
 	}
 
 	return timed_out;
@@ -757,6 +848,9 @@ stream_encode_mt(void *coder_ptr, const lzma_allocator *allocator,
 						out, out_pos, out_size,
 						&unpadded_size,
 						&uncompressed_size);
+#ifdef TUKAANI_PROJECT_XZ_VERIF
+				VERIF_MTENC_EV(110, 0, ret, *out_pos, 0);
+#endif
 			}
 
 			if (ret == LZMA_STREAM_END) {
@@ -790,6 +884,10 @@ stream_encode_mt(void *coder_ptr, const lzma_allocator *allocator,
 				return ret;
 			}
 
+#ifdef TUKAANI_PROJECT_XZ_VERIF
+			VERIF_MTENC_EV(116, 0, in_size - *in_pos,
+					out_size - *out_pos, action);
+#endif
 			// See if we should wait or return.
 			//
 			// TODO: LZMA_SYNC_FLUSH and LZMA_SYNC_BARRIER.
@@ -1010,9 +1108,17 @@ get_progress(void *coder_ptr, uint64_t *progress_in, uint64_t *progress_out)
 	mythread_sync(coder->mutex) {
 		*progress_in = coder->progress_in;
 		*progress_out = coder->progress_out;
+#ifdef TUKAANI_PROJECT_XZ_VERIF
+		VERIF_MTENC_EV(119, 0, *progress_in, *progress_out, 0);
+#endif
 
 		for (size_t i = 0; i < coder->threads_initialized; ++i) {
 			mythread_sync(coder->threads[i].mutex) {
+#ifdef TUKAANI_PROJECT_XZ_VERIF
+				VERIF_MTENC_EV(120, i,
+						coder->threads[i].progress_in,
+						coder->threads[i].progress_out, 0);
+#endif
 				*progress_in += coder->threads[i].progress_in;
 				*progress_out += coder->threads[i]
 						.progress_out;
